@@ -170,13 +170,98 @@ pub fn enumerate_histories(len: usize, max_start_nodes: usize) -> Vec<History> {
     out
 }
 
+/// Start trees far larger than any buffer or batch size an implementation could use internally.
+fn big_tree(shape: u8, n: usize) -> BNode {
+    let node = |i: usize, children: Vec<BNode>| BNode {
+        class: (i % 4) as u8,
+        name: (i % 5) as u8,
+        uid: if i % 97 == 3 { Some((i % 4) as u8) } else { None },
+        refs: if i % 41 == 7 { vec![((i % 3) as u8, RefSel::InTree((i * 13 % 65536) as u16))] } else { vec![] },
+        children,
+    };
+    match shape {
+        // star
+        0 => node(0, (1..n).map(|i| node(i, vec![])).collect()),
+        // chain
+        1 => {
+            let mut cur = node(n - 1, vec![]);
+            for i in (0..n - 1).rev() {
+                cur = node(i, vec![cur]);
+            }
+            cur
+        }
+        // comb: a spine of 40, the rest spread as leaves
+        2 => {
+            let spine = 40.min(n - 1);
+            let per = (n - 1 - spine) / spine.max(1);
+            let mut i = 1;
+            let mut kids = Vec::new();
+            for s in 0..spine {
+                let extra = if s + 1 == spine { n - 1 - spine - per * (spine - 1) } else { per };
+                let leaves: Vec<BNode> = (0..extra).map(|k| node(i + 1 + k, vec![])).collect();
+                kids.push(node(i, leaves));
+                i += 1 + extra;
+            }
+            node(0, kids)
+        }
+        // bushy: parent(i) chosen by a fixed hash among earlier nodes
+        _ => {
+            let mut children: Vec<Vec<usize>> = vec![vec![]; n];
+            for i in 1..n {
+                let p = ((i as u64).wrapping_mul(0x9E37_79B9_7F4A_7C15) >> 20) as usize % i;
+                // keep depth moderate: attach near the front
+                children[p % (1 + i / 8)].push(i);
+            }
+            fn rec(i: usize, children: &Vec<Vec<usize>>, node: &dyn Fn(usize, Vec<BNode>) -> BNode) -> BNode {
+                let kids = children[i].iter().map(|c| rec(*c, children, node)).collect();
+                node(i, kids)
+            }
+            rec(0, &children, &node)
+        }
+    }
+}
+
+pub fn large_histories(thorough: bool) -> Vec<History> {
+    let mut sizes: Vec<usize> = vec![1023, 1024, 1025, 1026, 1027, 2049, 2050, 4097, 4098];
+    if thorough {
+        sizes.extend([8193, 16385, 32769, 65537, 70_001]);
+    } else {
+        sizes.push(12_001);
+    }
+    let second = BNode { class: 0, name: 0, uid: Some(0), refs: vec![], children: vec![BNode { class: 3, name: 1, uid: None, refs: vec![], children: vec![] }] };
+    let mut out = Vec::new();
+    for n in sizes {
+        for shape in 0..4u8 {
+            if shape == 1 && n > 2100 {
+                continue; // the harness builds builders recursively; deep chains are C01/C02 "deep"
+            }
+            let ops = vec![
+                Op::CloneWithin { dom: 0, node: 0 },
+                Op::CloneWithin { dom: 0, node: 40_000 },
+                Op::TransferWithin { dom: 0, node: 20_000, dest: 50_000 },
+                Op::Transfer { src: 0, node: 10_000, dst: 1, dest: 0 },
+                Op::CloneIntoExternal { src: 0, node: 30_000, dst: 1 },
+                Op::CloneMulti { src: 0, nodes: vec![5_000, 60_000], dst: 1 },
+                Op::Transfer { src: 1, node: 30_000, dst: 0, dest: 65_535 },
+                Op::Destroy { dom: 0, node: 100 },
+                Op::Insert { dom: 0, parent: Some(33_000), tree: big_tree(0, 1500) },
+                Op::RawRoundTrip { dom: 0 },
+                Op::Destroy { dom: 0, node: 45_000 },
+                Op::CloneIntoExternal { src: 0, node: 0, dst: 1 },
+            ];
+            out.push(History { doms: vec![big_tree(shape, n), second.clone()], ops });
+        }
+    }
+    out
+}
+
 fn common(ctx: &Ctx, property: &'static str, rule: &str, floors: &[(&str, u64)], with_loads: u8) -> PropertyReport {
     let mut rep = PropertyReport::new(property, "exploration", rule);
     rep.assume("operations are called within their documented preconditions: never on the root, parents/destinations exist, transfer_within never moves a node under its own descendant, builders use fresh referents, clone_multiple takes disjoint subtrees");
     rep.assume("reference model executes the documented meaning (docs comments of rbx_dom_weak::WeakDom) and learns fresh referents / regenerated ids from the real DOM by structural correspondence");
     let sub = crate::engine::replay_subcheck_or_all(ctx);
     if sub.runs("histories") {
-        let cases = ctx.cfg.cases(30_000, 1_000_000);
+        let cases = ctx.cfg.cases(100_000, 1_500_000);
         let max_ops = ctx.cfg.tier.pick(25, 60);
         let mut r = ctx.run_prop(
             "histories",
@@ -197,6 +282,12 @@ fn common(ctx: &Ctx, property: &'static str, rule: &str, floors: &[(&str, u64)],
         r.notes.push(format!(
             "all histories of length <= {len} over every ordered start tree with <= {nodes} nodes (plus a second 2-node DOM), every applicable operation with every valid argument and 3 builder shapes"
         ));
+        rep.push(r);
+    }
+    if sub.runs("large") {
+        let cases = if ctx.cfg.replay.is_some() { vec![] } else { large_histories(ctx.cfg.tier == crate::engine::Tier::Thorough) };
+        let mut r: SubReport = ctx.run_list("large", cases, true, body_for(property));
+        r.notes.push("start trees of 1023..12001 (thorough: ..70001) instances shaped as star / chain / comb / bushy, then a fixed 12-step history touching every operation".into());
         rep.push(r);
     }
     rep
